@@ -142,6 +142,17 @@ CLAIMED["C17"] = {
     "note": TB + "; cdshealpix neighbours trusted as the definition of adjacency",
     "technique": "Lean 4 proof (T/F arithmetic; flood-fill correctness over an abstract adjacency) + differential correspondence + independent oracle for fill_holes",
 }
+CLAIMED["C19"] = {
+    "text": "Model of what `moc op` builds (two FITS streams, ConvertIterator on the narrower operand, the lazy operator, the writer). Theorems: for EVERY pair of canonical inputs of any two index "
+            "widths and every consistent hint behaviour of the streams, the stream handed to the writer is canonical, has consistent hints and covers exactly the set-theoretic result "
+            "(cli_op2_sem); expressed in the common 64-bit index space the result depends only on the two input sets, not on the stored widths (cli_op2_width_independent); complement and degrade; "
+            "convert and `from timestamp` rest on the re-exported C07 / C18 theorems. Tied to the code by driving the rebuilt `moc` binary: all width pairs x operations x output formats, all convert "
+            "pairs, `from` on timestamps / time ranges / positions, and invalid inputs (exit status + message, never exit 101). Two defects repaired (todo!() panics; out-of-range depth panics), two "
+            "recorded as open findings (truncated FITS data accepted silently; unparsable `from` lines skipped silently). Partial: geometry sub-commands, filter/view/info and ST variants are not driven.",
+    "design_ref": "DESIGN.md §4 C19, §10",
+    "note": TB + "; clap argument parsing and cdshealpix hash outside the model",
+    "technique": "Lean 4 proof (composition of the C01/C04 lazy-operator theorems with the width-conversion lemmas) + differential correspondence driving the real binary + exit-status checks on invalid inputs",
+}
 CLAIMED["C20"] = {
     "text": "Integer model of valued_cells_to_moc_with_opt and its four descents (asserts as faults), in exact agreement with the f64 code on dyadic maps for all 16 option "
             "combinations. Theorems: the accumulation loops take the maximal prefix with cumulative value <= threshold (every cell strictly between the thresholds is selected), the "
